@@ -17,7 +17,7 @@ META = dict(
     property="C58",
     level="exploration",
     technique="lockstep reference model over generated operation histories (fake endpoint, fake transports, task.Clock): breadth-first complete enumeration of short histories with state hashing over the real service + Hypothesis random long histories",
-    level_text="Every history over the op alphabet (start, stop, whenConnected(None/1/2), attempt ok with prepare ok/raise/deferred, attempt fail, connection lost, (also with an application protocol whose own connectionLost raises), prepare Deferred ok/fail, clock advance to the timer / by 0.5, synchronous connect outcome) is enumerated breadth first up to the stated depth, extending only histories that reach a new (real machine state, counters, waiters, transports, timer) fingerprint; random histories up to 40 ops add failure limits up to 3, user cancellation of waiters, service calls made from inside whenConnected/stopService callbacks, and odd clock steps. Exhaustive only to that depth; beyond it sampled.",
+    level_text="Every history over the op alphabet (start, stop, whenConnected(None/1/2), attempt ok with prepare ok/raise/deferred, attempt fail, connection lost, (also with an application protocol whose own connectionLost raises), prepare Deferred ok/fail, clock advance to the timer / by 0.5, synchronous connect outcome) is enumerated breadth first up to the stated depth, extending only histories that reach a new (real machine state, counters, waiters, transports, timer) fingerprint; random histories up to 40 ops add failure limits up to 3, user cancellation of waiters, startService made from inside whenConnected/stopService callbacks (modelled: it takes effect right after the step), other service calls made from such callbacks, and odd clock steps. Exhaustive only to that depth; beyond it sampled.",
     level_note="Reference model written from the ClientService/whenConnected/stopService/prepareConnection docstrings; trusted. Readings fixed by the model: a dropped established connection counts as failure #1 for the retry policy; the consecutive-failure count survives stop/start; a rejected (prepareConnection) connection must be closed by the service and its later loss is a non-event; a stopService Deferred may fire while a *rejected* connection is still closing. Histories are truncated (invariants only) after points where the documentation does not determine the behaviour (loss or stop while a prepareConnection Deferred is pending once that no longer raises; service calls made re-entrantly from callbacks). automat, Deferred and task.Clock are trusted.",
     design_ref="§5 C58",
     rule="case = {hook: bool, ops: [...]}; ops that are not applicable in the current harness state are skipped. non-trivial = at least 4 effective ops including a start, a connection outcome and one of stop / loss / whenConnected-pending / retry timer firing; distinct by the effective op list.",
@@ -99,6 +99,7 @@ class World:
         self.two_live = None
         self.reentrant_errors = []
         self.reentrant_done = 0
+        self.step_actions = []     # service calls made from callbacks during the current step
         self.failures_by_id = {}
         world = self
 
@@ -250,6 +251,7 @@ class World:
     def reenter(self, action):
         """A service call made from inside a user callback."""
         self.reentrant_done += 1
+        self.step_actions.append(action)
         try:
             if action == "stop":
                 self.stop()
@@ -300,6 +302,8 @@ class World:
             tuple((t.closing,) for t in self.transports if not t.lost),
             tuple(round(x - now, 6) for x in self.timer()),
             self.armed,
+            tuple(sorted(str(x["action"]) for x in self.waiters if x["status"] is None)),
+            tuple(sorted(str(x["action"]) for x in self.stops if not x["fired"])),
             sum(1 for w in self.waiters if w["status"] is None),
         )
 
@@ -543,6 +547,7 @@ def run_case(ctx, case):
     kinds = set()
     orphans = set()
     truncated = None
+    wact, sact = [], []         # action attached to each whenConnected / stopService Deferred
     ctx._c58_fp = None
 
     def viol(base, detail, op, target=None, prev_mode=None):
@@ -583,16 +588,21 @@ def run_case(ctx, case):
             ntr0 = len(w.transports)
             m.begin_step()
             reentrant = False
+            w.step_actions = []
+            wfired0 = [x is not None for x in m.wstat]
+            sfired0 = list(m.sstat)
             try:
                 if k == "start":
                     m.start()
                     w.service.startService()
                 elif k == "stop":
                     m.stop()
-                    w.stop(op[1] if len(op) > 1 else None)
+                    sact.append(op[1] if len(op) > 1 else None)
+                    w.stop(sact[-1])
                 elif k == "when":
                     m.when(op[1])
-                    w.when(op[1], op[2] if len(op) > 2 else None)
+                    wact.append(op[2] if len(op) > 2 else None)
+                    w.when(op[1], wact[-1])
                 elif k == "wcancel":
                     m.wcancel(op[1])
                     w.waiters[op[1]]["d"].cancel()
@@ -640,8 +650,26 @@ def run_case(ctx, case):
             if w.reentrant_errors:
                 act, msg = w.reentrant_errors[0]
                 viol("reentrant-call-rejected", f"a service call ({act}) made from a whenConnected/stopService callback was refused: {msg}", op, target, prev_mode)
-            if w.reentrant_done:
+            # A startService made from a callback is a valid event: the machine
+            # postpones it until the transition that fired the callback is over, so it
+            # acts like a startService right after this step (model: same).  Other
+            # calls made from callbacks end the lockstep comparison (see below).
+            if w.step_actions and all(a == "start" for a in w.step_actions):
+                ctx.count("startService made from a callback")
+            elif w.step_actions:
                 reentrant = True
+            for _round in range(8):
+                fired_start = [i for i, x in enumerate(m.wstat)
+                               if x is not None and not (i < len(wfired0) and wfired0[i]) and wact[i] == "start"]
+                fired_start += [-1 - i for i, x in enumerate(m.sstat)
+                                if x and not (i < len(sfired0) and sfired0[i]) and sact[i] == "start"]
+                wfired0 = [x is not None for x in m.wstat]
+                sfired0 = list(m.sstat)
+                if not fired_start:
+                    break
+                if not m.running:
+                    kinds.add("start-from-callback")
+                m.start()
             # ---- errors that were logged instead of raised
             for ev in events[nlog:]:
                 f = ev.get("log_failure")
@@ -681,7 +709,7 @@ def run_case(ctx, case):
                     viol("stop-result-not-none", s["bad"], op, target, prev_mode)
                 if s["fired"] and not s.get("checked"):
                     s["checked"] = True
-                    live_old = [c for c in live if c < ntr0 or not m.running]
+                    live_old = [c for c in live if c < ntr0 or (not m.running and not ambiguous)]
                     if live_old:
                         viol("stop-fired-with-open-connection",
                              f"stopService Deferred #{sid} fired while connection(s) {live_old!r} are open and were not asked to close", op, target, prev_mode)
@@ -689,7 +717,7 @@ def run_case(ctx, case):
                     if closing and not ambiguous:
                         viol("stop-fired-before-connection-closed",
                              f"stopService Deferred #{sid} fired before connectionLost of {closing!r}", op, target, prev_mode)
-                    if pend and not m.running:
+                    if pend and not m.running and not ambiguous:
                         viol("stop-fired-with-attempt-in-progress", f"stopService Deferred #{sid}", op, target, prev_mode)
             if ambiguous:
                 if k == "stop" and not w.transports[prev_conn].closing and not w.transports[prev_conn].lost:
@@ -754,7 +782,7 @@ def run_case(ctx, case):
     if nt:
         ctx.nontrivial(("h", hook, tuple(eff)))
         ctx.count("nontrivial")
-        for tag in ("retry", "when-pending", "lose", "prep", "wcancel", "arm"):
+        for tag in ("retry", "when-pending", "lose", "prep", "wcancel", "arm", "start-from-callback"):
             if tag in kinds:
                 ctx.count("nontrivial with " + tag)
         if len(eff) >= 6 and len(kinds) >= 5:
@@ -767,7 +795,8 @@ def run_case(ctx, case):
 
 def _alphabet(hook, wide=False):
     ops = [["start"], ["stop"], ["when", None], ["when", 1], ["when", 2],
-           ["fail"], ["lose", 0], ["lose", 0, "raise"], ["adv", "next"], ["adv", 0.5], ["arm", "fail"]]
+           ["fail"], ["lose", 0], ["lose", 0, "raise"], ["adv", "next"], ["adv", 0.5], ["arm", "fail"],
+           ["when", None, "start"], ["when", 1, "start"], ["stop", "start"]]
     if hook:
         ops += [["ok", "ok"], ["ok", "raise"], ["ok", "defer"], ["prep", "ok"], ["prep", "fail"],
                 ["lose", 1], ["arm", "ok", "ok"], ["arm", "ok", "raise"]]
@@ -815,6 +844,8 @@ def _ops_strategy(hook):
         st.just(["start"]), st.just(["start"]),
         st.just(["stop"]),
         st.builds(lambda n: ["when", n], st.sampled_from([None, None, 1, 1, 2, 3])),
+        st.builds(lambda n: ["when", n, "start"], st.sampled_from([None, 1, 2])),
+        st.just(["stop", "start"]),
         st.just(["fail"]), st.just(["fail"]),
         st.builds(lambda k: ["lose", k], st.sampled_from([0, 0, 0, 1])),
         st.builds(lambda k: ["lose", k, "raise"], st.sampled_from([0, 0, 1])),
@@ -854,7 +885,7 @@ def _shard(ctx, i):
 
 
 def run(ctx):
-    depth = ctx.pick(9, 12)
+    depth = ctx.pick(8, 11)
     if ctx.thorough:
         ctx.shards(_bfs, [(False, depth - 1, True), (True, depth - 2, True), (False, depth + 3, False), (True, depth + 2, False)])
     else:
